@@ -1,8 +1,8 @@
 //! C23: RESP GRAPH.QUERY and the HTTP query endpoint run every statement like the engine does
 //! (src/protocol/command.rs handle_graph_query, src/http/handler.rs query_handler, src/query/mod.rs).
 //!
-//! Every step carries one rendered statement.  It is executed three times, each time on its own
-//! fresh copy of the fixed graph:
+//! A `Stmt` step carries one rendered statement; the following `Engine` and `Serve` steps execute it,
+//! each on its own fresh copy of the fixed graph:
 //!   engine  QueryEngine::execute for a read, QueryEngine::execute_mut for a write; read or write is the
 //!           engine's own verdict: the planner's `is_write` of the parsed statement, which is exactly what
 //!           makes the read executor refuse a statement (EXPLAIN describes the plan and is a read)
@@ -115,6 +115,7 @@ fn cell_engine(v: &QV) -> String {
             P::String(s) => s.clone(),
             P::Integer(i) => i.to_string(),
             P::Boolean(b) => b.to_string(),
+            P::Float(f) => f.to_string(),
             P::Null => "null".into(),
             other => format!("other:{other:?}"),
         },
@@ -158,6 +159,9 @@ fn cell_resp(v: &RespValue) -> String {
                 format!("node:{}", id_in(&s, "NodeId(").unwrap_or_default())
             } else if s.starts_with("Edge(EdgeId(") {
                 format!("edge:{}", id_in(&s, "EdgeId(").unwrap_or_default())
+            } else if s == "Null" {
+                // format_value renders a null property value with {:?}
+                "null".into()
             } else {
                 s
             }
@@ -194,7 +198,11 @@ fn cell_http(v: &Value) -> String {
     match v {
         Value::Null => "null".into(),
         Value::Bool(b) => b.to_string(),
-        Value::Number(n) => n.to_string(),
+        Value::Number(n) => match (n.as_i64(), n.as_f64()) {
+            (Some(i), _) => i.to_string(),
+            (None, Some(f)) => f.to_string(),
+            _ => n.to_string(),
+        },
         Value::String(s) => s.clone(),
         Value::Object(o) if o.contains_key("id") && o.contains_key("labels") => format!("node:{}", o["id"].as_str().unwrap_or("?")),
         Value::Object(o) if o.contains_key("id") && o.contains_key("source") => format!("edge:{}", o["id"].as_str().unwrap_or("?")),
@@ -326,16 +334,25 @@ fn run(scripts: &str, trace: &str, _opts: &Opts) -> Res<()> {
     let g0 = dump(&fixed_graph());
     for s in &scripts {
         tr.reset(&s.sid)?;
+        let mut text = String::new();
         for step in &s.steps {
-            assert_eq!(gs(step, "op"), "Stmt");
-            let text = gs(step, "text");
-            let engine = run_engine(text);
-            let resp = run_resp(&rt, text);
-            let http = run_http(&rt, text);
-            tr.emit(event_from(
-                step,
-                json!({"obs": {"g0": g0["full"], "upper": text.trim().to_uppercase(), "engine": engine, "resp": resp, "http": http}}),
-            ))?;
+            match gs(step, "op") {
+                // the statement of the following Engine / Serve steps
+                "Stmt" => {
+                    text = gs(step, "text").to_string();
+                    tr.emit(event_from(step, json!({"obs": {"upper": text.trim().to_uppercase()}})))?;
+                }
+                "Engine" => {
+                    let mut o = run_engine(&text);
+                    o["g0"] = g0["full"].clone();
+                    tr.emit(event_from(step, json!({"obs": o})))?;
+                }
+                "Serve" => {
+                    let o = if gs(step, "r") == "resp" { run_resp(&rt, &text) } else { run_http(&rt, &text) };
+                    tr.emit(event_from(step, json!({"obs": o})))?;
+                }
+                other => panic!("unknown op {other}"),
+            }
         }
     }
     tr.finish()
